@@ -109,7 +109,7 @@ func (s *SencBox) ReadButNotParsed() bool {
 
 // DecodeSenc - box-specific decode
 func DecodeSenc(hdr BoxHeader, startPos uint64, r io.Reader) (Box, error) {
-	if hdr.Size < 16 {
+	if hdr.Size < 16 || hdr.payloadLen() < 8 {
 		return nil, fmt.Errorf("box size %d less than min size 16", hdr.Size)
 	}
 	data, err := readBoxBody(r, hdr)
@@ -153,7 +153,7 @@ func DecodeSenc(hdr BoxHeader, startPos uint64, r io.Reader) (Box, error) {
 
 // DecodeSencSR - box-specific decode
 func DecodeSencSR(hdr BoxHeader, startPos uint64, sr bits.SliceReader) (Box, error) {
-	if hdr.Size < 16 {
+	if hdr.Size < 16 || hdr.payloadLen() < 8 {
 		return nil, fmt.Errorf("box size %d less than min size 16", hdr.Size)
 	}
 
